@@ -163,6 +163,7 @@ def stepLine (st : St) (line : String) : St × List String :=
   match ws with
   | ["case", cid] => ({}, ["#case " ++ cid])
   | ["end"] => (st, [])
+  | ["now", _] => (st, [])
   | ["mtu", n] => match n.toNat? with
       | some m => ({ st with sz := ⟨m⟩ }, [])
       | none => (st, ["bad-op"])
